@@ -64,9 +64,14 @@ def dump_contract(extra):
 
 
 # ----------------------------------------------------------------------------- workload
-def relayout(text, facts_lines, lead, crlf, strip_final_newline, comment):
+EXOTIC = "\x0c\x0b\x1c\x1d\x1e\x85\u2028"  # line breaks for str.splitlines() only - not for ast / tree-sitter, whose numbering the reports use
+
+
+def relayout(text, facts_lines, lead, crlf, strip_final_newline, comment, exotic=False):
     """Prefix `lead` comment/blank lines, optionally CRLF / no trailing newline. Returns (text, shift)."""
-    head = "".join((comment + " filler %d\n" % i) if i % 3 else "\n" for i in range(lead))
+    if exotic:
+        lead = max(lead, 2)
+    head = "".join((comment + " filler %d%s\n" % (i, EXOTIC if exotic else "")) if i % 3 else "\n" for i in range(lead))
     out = head + text
     if strip_final_newline and out.endswith("\n"):
         out = out[:-1]
@@ -121,6 +126,10 @@ def make_case(rng, idx):
     lead = rng.choice([0, 0, 1, 7, 60, 400])
     crlf = rng.random() < 0.25
     nonl = rng.random() < 0.3
+    exotic = rng.random() < 0.25
+
+    def rl(*a):
+        return relayout(*a, exotic=exotic)
     files, facts = {}, {}
     kind = idx % 7
     if kind == 6:  # duplicate constants across files, single- and multi-declarator, multi-line declarations
@@ -131,7 +140,7 @@ def make_case(rng, idx):
         py_a = "%s = %d\n\n%s = (\n    %d\n)\n%s = %d\n" % (names[0], vals[0], names[1], vals[1], names[3], vals[3])
         py_b = "".join("%s = %d\n" % (n, v) for n, v in zip(names[:2], vals))
         for fname, text, cm in (("pkg/k%d_a.ts" % idx, ts_a, "//"), ("pkg/k%d_b.ts" % idx, ts_b, "//"), ("pkg/k%d_a.py" % idx, py_a, "#"), ("pkg/k%d_b.py" % idx, py_b, "#")):
-            text, shift = relayout(text, None, lead if lead < 100 else 3, crlf, nonl, cm)
+            text, shift = rl(text, None, lead if lead < 100 else 3, crlf, nonl, cm)
             files[fname] = text
             facts[fname] = {"kind": "constants"}
         files[".thailint.yaml"] = "dry:\n  enabled: true\n  detect_duplicate_constants: true\n  min_duplicate_lines: 50\n"
@@ -139,8 +148,8 @@ def make_case(rng, idx):
     elif kind == 5:  # multi-line constructs: decorated / multi-line headers, multi-line calls
         py = MULTI_PY.replace("NAME", "m%d" % idx)
         rs = MULTI_RS.replace("NAME", "m%d" % idx)
-        py, sh1 = relayout(py, None, lead, crlf, nonl, "#")
-        rs, sh2 = relayout(rs, None, lead, crlf, nonl, "//")
+        py, sh1 = rl(py, None, lead, crlf, nonl, "#")
+        rs, sh2 = rl(rs, None, lead, crlf, nonl, "//")
         files["pkg/x%d.py" % idx] = py
         files["pkg/x%d.rs" % idx] = rs
         facts["pkg/x%d.py" % idx] = {"kind": "multiline", "headers": {"decorated_m%d" % idx: 7 + sh1, "deep_m%d" % idx: 19 + sh1}, "spans": {"improper-logging": [24 + sh1, 27 + sh1], "magic-numbers": [26 + sh1, 26 + sh1]}}
@@ -152,7 +161,7 @@ def make_case(rng, idx):
                       "block": ctrl.no_lone_if_in_else(ctrl.gen_chain(rng, ctrl.kinds_for(lang), rng.randint(2, 6)))} for j in range(rng.randint(1, 4))]
             text, fx = ctrl.render(lang, funcs, indent=rng.choice(["    ", "  "]), gap=rng.randint(0, 3), prefix="c%d" % idx)
             cm = "#" if lang == "py" else "//"
-            text, shift = relayout(text, None, lead if lang != "py" or True else 0, crlf, nonl, cm)
+            text, shift = rl(text, None, lead if lang != "py" or True else 0, crlf, nonl, cm)
             f = "pkg/n%d%s" % (idx, ctrl.EXT[lang])
             files[f] = text
             facts[f] = {"kind": "nesting", "items": {n: fx[n]["line"] + shift for n in fx}}
@@ -161,7 +170,7 @@ def make_case(rng, idx):
         for lang, gen in (("py", lambda: lits.gen_py(rng, rng.randint(8, 25))), ("ts", lambda: lits.gen_ts(rng, rng.randint(8, 20))), ("rs", lambda: lits.gen_rs(rng, rng.randint(8, 20)))):
             text, occ = gen()
             cm = "#" if lang == "py" else "//"
-            text, shift = relayout(text, None, lead, crlf, nonl, cm)
+            text, shift = rl(text, None, lead, crlf, nonl, cm)
             f = "pkg/m%d%s" % (idx, ctrl.EXT[lang])
             files[f] = text
             facts[f] = {"kind": "magic", "items": [[o["line"] + shift, o["value"], o["text"]] for o in occ if o["text"]]}
@@ -170,7 +179,7 @@ def make_case(rng, idx):
         for lang in ("py", "ts", "rs"):
             text, fx = classes.gen_file(rng, lang, idx, 2, 8, rng.randint(1, 3))
             cm = "#" if lang == "py" else "//"
-            text, shift = relayout(text, None, lead, crlf, nonl, cm)
+            text, shift = rl(text, None, lead, crlf, nonl, cm)
             f = "pkg/s%d%s" % (idx, ctrl.EXT[lang])
             files[f] = text
             facts[f] = {"kind": "class", "items": {c["name"]: c["line"] + shift for c in fx}}
@@ -178,7 +187,7 @@ def make_case(rng, idx):
         cmds = [["srp"], ["stateless-class"]]
     elif kind == 3:  # rust calls: the call's line
         text, planted = c17.gen_file(rng, idx)
-        text, shift = relayout(text, None, lead, crlf, nonl, "//")
+        text, shift = rl(text, None, lead, crlf, nonl, "//")
         f = "pkg/r%d.rs" % idx
         files[f] = text
         facts[f] = {"kind": "rustcalls", "items": [[p["line"] + shift, p["kind"]] for p in planted]}
@@ -191,11 +200,11 @@ def make_case(rng, idx):
                 files[k] = v
                 continue
             cm = "#" if k.endswith(".py") else "//"
-            text, shift = relayout(v, None, lead if lead < 100 else 5, crlf, nonl, cm)
+            text, shift = rl(v, None, lead if lead < 100 else 5, crlf, nonl, cm)
             files[k] = text
             facts[k] = {"kind": "trigger", "shift": shift}
         cmds = [[c] for c in triggers.CMDS if c not in ("file-placement",)]
-    return {"idx": idx, "files": files, "facts": facts, "cmds": cmds, "layout": {"lead": lead, "crlf": crlf, "no_final_newline": nonl}}
+    return {"idx": idx, "files": files, "facts": facts, "cmds": cmds, "layout": {"lead": lead, "crlf": crlf, "no_final_newline": nonl, "exotic_separators": exotic}}
 
 
 def exec_case(case):
